@@ -306,5 +306,8 @@ def r5(prog, rep):
     for k, ok in facts.items():
         rep.ob("R5", "penalty mask: " + k, ok, f.site(), "", key="mask/" + k)
     geo = prog.func(MESH, "BoutMesh.geometry")
-    ok = K("self.penalty_mask[self.region_indices[region.myID]]=region.penalty_mask") in T(mod, geo.node)
+    from ..stores import effects
+    ok = any(e.kind == "store" and T(mod, e.target) == K("self.penalty_mask[self.region_indices[region.myID]]") and T(mod, e.value) == K("region.penalty_mask")
+             and any(str(c).replace(" ", "") == K("<loop: region in self.regions.values()>").replace(" ", "") or "regioninself.regions.values()" in str(c).replace(" ", "") for c in e.conds)
+             for e in effects(geo.node, keep=("region",)))
     rep.ob("R5", "region masks are assembled with the region index map", ok, geo.site(), "", key="mask/assemble")
